@@ -1,5 +1,5 @@
 (* C01 -- BBS signature completeness.  Statements are pinned with [Check]; nothing else here. *)
-From ZK Require Import Laws SignProofs.
+From ZK Require Import Laws SignProofs Toy.
 
 Theorem C01_sign_verify_complete : forall (E : env) (LW : Laws E) sk header msgs sig,
   sign E msgs sk (sk_to_pk E sk) header = Ok sig ->
@@ -72,3 +72,24 @@ Check (C01_keygen_total : forall (E : env) ikm ki kd,
   (length (option_default (c_api_id (cs E) ++ c_keygen_dst (cs E)) kd) <= 255)%nat ->
   exists sk, key_gen E ikm ki kd = Ok sk).
 Print Assumptions C01_keygen_total.
+
+(* non-vacuity: the premises of every "forall E, Laws E -> ..." theorem are satisfiable: a concrete environment (scalars and
+   both groups = Z_251, pairing check a*x = b*y, small hash functions) satisfies Laws and suite_ok, and signing in it succeeds *)
+Theorem C01_laws_inhabited : Laws toyE.
+Proof. exact toy_laws. Qed.
+Check (C01_laws_inhabited : Laws toyE).
+Print Assumptions C01_laws_inhabited.
+
+Theorem C01_toy_suite_ok : suite_ok toyE.
+Proof. exact toy_suite_ok. Qed.
+Check (C01_toy_suite_ok : suite_ok toyE).
+Print Assumptions C01_toy_suite_ok.
+
+Theorem C01_toy_sign_verifies :
+  exists sg, sign toyE (Some t_msgs) t_sk (sk_to_pk toyE t_sk) t_hdr = Ok sg /\
+             verify toyE sg (sk_to_pk toyE t_sk) (Some t_msgs) t_hdr = Ok tt.
+Proof. exact toy_sign_verifies. Qed.
+Check (C01_toy_sign_verifies :
+  exists sg, sign toyE (Some t_msgs) t_sk (sk_to_pk toyE t_sk) t_hdr = Ok sg /\
+             verify toyE sg (sk_to_pk toyE t_sk) (Some t_msgs) t_hdr = Ok tt).
+Print Assumptions C01_toy_sign_verifies.
